@@ -134,6 +134,45 @@ def canon_env(env, dirs):
     return {k: _sub_dirs(v, dirs, back=True) for k, v in env.items()} if dirs else env
 
 
+_INHERITED = None
+
+
+def inherited_names():
+    """(names the library inherits on this platform, barred value prefix) as the translator reads them from the
+    CURRENT source; None when they cannot be located (then there is no independent expectation)"""
+    global _INHERITED
+    if _INHERITED is None:
+        try:
+            from . import core, translate_host
+            _lean, rep = translate_host.gen_hostenv(core.REPO / "src" / "chuk_mcp")
+            if rep.get("untranslatable"):
+                _INHERITED = (None, None)
+            else:
+                _INHERITED = (rep["win32"] if sys.platform == "win32" else rep["posix"], rep["prefix"])
+        except Exception:  # noqa: BLE001
+            _INHERITED = (None, None)
+    return _INHERITED
+
+
+def parent_snapshot():
+    """the part of THIS process's environment, right now, that the default environment is made from"""
+    names, _ = inherited_names()
+    if names is None:
+        return None
+    return {k: os.environ[k] for k in names if k in os.environ}
+
+
+def expected_default(parent, fallback):
+    """the default environment the child must get, computed from the parent's environment AT LAUNCH TIME
+    (listed names that are set, non-empty and do not start with the barred prefix) — independently of the library
+    function, so that a stale or leaking default shows; `fallback` (the library's own answer) when the lists
+    cannot be read from the source"""
+    names, prefix = inherited_names()
+    if names is None or parent is None:
+        return fallback
+    return {k: parent[k] for k in names if parent.get(k) and not (prefix is not None and parent[k].startswith(prefix))}
+
+
 def _decode(b: bytes) -> str:
     return b.decode("utf-8", "surrogateescape")
 
@@ -185,6 +224,52 @@ def exc_obs(ex: BaseException):
     }
 
 
+class FormattingHandler(__import__("logging").Handler):
+    """what a host's log handler does with a record: format it (message % args, exception text) — a NullHandler or
+    a disabled logger never does, which hides every formatting problem and every debug-only code path"""
+
+    def emit(self, record):
+        try:
+            self.format(record)
+        except Exception:  # noqa: BLE001
+            self.handleError(record)
+
+
+@contextlib.contextmanager
+def host_process(case):
+    """the environment of the HOST process for one case: logging configured at DEBUG with a formatting handler
+    (`logging: "debug"`), and `sys.stdout` as the host may have it — not UTF-8 (`ascii`, `cp1252`) or closed"""
+    import logging
+
+    root = logging.getLogger()
+    saved = (root.level, list(root.handlers), logging.root.manager.disable)
+    h = None
+    if case.get("logging") == "debug":
+        logging.disable(logging.NOTSET)
+        h = FormattingHandler()
+        h.setFormatter(logging.Formatter("%(asctime)s %(name)s %(levelname)s %(message)s"))
+        root.addHandler(h)
+        root.setLevel(logging.DEBUG)
+    kind = case.get("stdout", "utf-8")
+    if kind in ("ascii", "cp1252"):
+        out = io.TextIOWrapper(io.BytesIO(), encoding=kind, errors="strict", write_through=True)
+    else:
+        out = io.StringIO()
+        if kind == "closed":
+            out.close()
+    try:
+        with contextlib.redirect_stdout(out):
+            yield
+    finally:
+        if h is not None:
+            root.removeHandler(h)
+        for x in list(root.handlers):
+            if x not in saved[1]:
+                root.removeHandler(x)
+        root.setLevel(saved[0])
+        logging.disable(saved[2])
+
+
 def _run_entry(case, cfg_path, obs):
     import anyio
     from chuk_mcp.config import load_config
@@ -193,8 +278,7 @@ def _run_entry(case, cfg_path, obs):
     names = case["names"]
     entry = case["entry"]
     verbose = bool(case.get("verbose"))
-    buf = io.StringIO()
-    with contextlib.redirect_stdout(buf):
+    with host_process(case):
         legacy = case.get("legacy")
         if entry == "loader" and legacy in ("transport", "asyncgen"):
             # the old package layout: `chuk_mcp.mcp_client.StdioClient` (today's StdioTransport) and the old
@@ -337,6 +421,10 @@ def run_case(case):
     from chuk_mcp.mcp_client.host.environment import get_default_environment
 
     obs = {"launches": [], "raised": None, "ret": None, "hang": False, "default_env": {}}
+    # a host may look at its default environment at any time, e.g. before it adjusts its own environment and
+    # launches a server: the launch must then see the environment as it is at launch time
+    with contextlib.suppress(Exception):
+        get_default_environment()
     tmp = tempfile.mkdtemp(prefix="verif-c20-")
     wdirs = {}
     host_path = os.environ.get("PATH")
@@ -369,6 +457,7 @@ def run_case(case):
             else:
                 os.environ[k] = v
         obs["default_env"] = dict(get_default_environment())
+        obs["parent_env"] = parent_snapshot()
         cfg_dir = os.path.join(tmp, case.get("cfgdir", "conf"))
         os.makedirs(cfg_dir, exist_ok=True)
         cfg_path = os.path.join(cfg_dir, case.get("cfgname", "config.json"))
@@ -424,6 +513,8 @@ def run_case(case):
         for l in obs["launches"]:
             l["env"] = canon_env(l["env"], wdirs)
         obs["default_env"] = canon_env(obs["default_env"], wdirs)
+        if obs.get("parent_env") is not None:
+            obs["parent_env"] = canon_env(obs["parent_env"], wdirs)
         if isinstance(obs.get("ret"), dict) and isinstance(obs["ret"].get("env"), dict):
             obs["ret"]["env"] = canon_env(obs["ret"]["env"], wdirs)
         # the loader's returned command, back to its placeholder
@@ -503,6 +594,7 @@ def run_cli_case(case):
         os.chdir(roots["cwd"])
         sys.argv = ["chuk_mcp"] + [a.replace("@ABS", roots["abs"]) for a in case["argv"]]
         obs["default_env"] = dict(get_default_environment())
+        obs["parent_env"] = parent_snapshot()
         buf = io.StringIO()
         try:
             with contextlib.redirect_stdout(buf):
@@ -517,6 +609,8 @@ def run_cli_case(case):
         for l in obs["launches"]:
             l["env"] = {k: _sub_dirs(v, canon, back=True).replace(roots["home"], "@HOME") for k, v in l["env"].items()}
         obs["default_env"] = {k: v.replace(roots["home"], "@HOME") for k, v in canon_env(obs["default_env"], canon).items()}
+        if obs.get("parent_env") is not None:
+            obs["parent_env"] = {k: v.replace(roots["home"], "@HOME") for k, v in canon_env(obs["parent_env"], canon).items()}
     finally:
         sys.argv = saved["argv"]
         os.chdir(saved["cwd"])
